@@ -80,6 +80,12 @@ def run(ctx):
                          (pt.group(1), pt.group(2), ", stderr descriptor requested" if pt.group(3) else "", m.group(3),
                           m.group(4)),
                          {"harness": "harness/execsig_harness.c <sig_helper>", "scenario": m.group(1), "line": line}))
+        elif m.group(2) != "1" and m.group(1) == "ordinary-command":
+            offs.append(("execsig:not-delivered:ordinary-command-inherits-blocked-mask",
+                         "exec module: SIGINT forwarded to a command that does not touch its signal mask (`sleep 3`, started "
+                         "while the caller blocks SIGINT/SIGTSTP/SIGCHLD as every thread of pdsh does) stays pending: the "
+                         "command inherited the mask across fork and exec and never receives the interrupt (%s)" % line,
+                         {"harness": "harness/execsig_harness.c <sig_helper>", "scenario": m.group(1), "line": line}))
         elif m.group(2) != "1":
             offs.append(("execsig:not-delivered:" + m.group(1),
                          "exec module: SIGINT forwarded with efd as dsh.c keeps it (%s) did not reach the running command "
@@ -89,8 +95,8 @@ def run(ctx):
     seen = set()
     offs = [o for o in offs if not (o[0] in seen or seen.add(o[0]))]
     # the child of the real _pipecmd makes at least: the dup2()s, the close loop, the exec
-    if p.returncode != 0 or n < 3 + 8 or len(calls) != 2 or min(calls.values()) < 4 or \
-            len(points) != sum(calls.values()):
+    if p.returncode != 0 or n < 4 + 8 or len(calls) != 2 or min(calls.values()) < 4 or \
+            len(points) != sum(calls.values()) or "ordinary-command " not in out:
         offs.append(("execsig:crash", "execsig_harness rc=%s, %d scenarios reported, calls counted %s: %s" %
                      (p.returncode, n, calls, p.stderr.decode("utf-8", "replace")[-300:]), {"harness": "execsig_harness"}))
     POINTS.clear()
